@@ -931,6 +931,43 @@ Proof.
   destruct (tcc_prefix (with_ctx c (Some ts'))) as [[[[mz ty] sl] nm]| | |]; try reflexivity.
 Qed.
 
+(* ================= expiration: Unix seconds, whatever the fraction ================= *)
+
+Theorem expiration_seconds : forall O mz subj ctx caller t t',
+  gt_sec t = gt_sec t' ->
+  to_core_claim O (cred_at mz subj (Some t) ctx) caller =
+  to_core_claim O (cred_at mz subj (Some t') ctx) caller.
+Proof.
+  intros O mz subj ctx caller t t' H. unfold cred_at, time_unix. now rewrite H.
+Qed.
+
+(* value slot 0 of every claim built from a credential expiring at instant t *)
+Theorem expiration_layout : forall O mz subj ctx caller t cl,
+  0 <= o_nonce (eff_opts caller) < 2 ^ 64 -> 0 <= o_version (eff_opts caller) < 2 ^ 32 ->
+  fst (to_core_claim O (cred_at mz subj (Some t) ctx) caller) = Ok cl ->
+  v0 cl = o_nonce (eff_opts caller) + 2 ^ 64 * (gt_sec t mod 2 ^ 64) /\
+  get_field (i0 cl) 131 1 = 1.
+Proof.
+  intros O mz subj ctx caller t cl Hn Hv Hok.
+  destruct (tcc_prefix (cred_at mz subj (Some t) ctx)) as [[[[mz' ty] sl] nm]| | |] eqn:Hp;
+    try (rewrite to_core_claim_unfold, Hp in Hok; discriminate).
+  destruct (layout_ok O _ caller mz' ty sl nm cl Hn Hv Hp Hok) as (sb & rt & _ & _ & Hl).
+  unfold layout, ints in Hl. cbn [cred_at c_expiration time_unix exp_flag] in Hl.
+  injection Hl as H0 _ _ _ H4 _ _ _. split; [exact H4|].
+  rewrite H0.
+  pose proof (schema_hash_range O ty) as Hs.
+  assert (Hsb : 0 <= subject_flag sb < 8) by (destruct sb; cbn; lia).
+  assert (Hrt : 0 <= merklized_flag rt < 3) by (destruct rt; cbn; lia).
+  pose proof (b2z_range (o_updatable (eff_opts caller))) as Hu.
+  replace (schema_hash O ty +
+           2 ^ 128 * (subject_flag sb + 8 * 1 + 16 * b2z (o_updatable (eff_opts caller)) + 32 * merklized_flag rt) +
+           2 ^ 160 * o_version (eff_opts caller))
+    with ((schema_hash O ty + 2 ^ 128 * subject_flag sb) +
+          2 ^ 131 * (1 + 2 ^ 1 * (b2z (o_updatable (eff_opts caller)) + 2 * merklized_flag rt
+                                  + 2 ^ 28 * o_version (eff_opts caller)))) by (pw; lia).
+  apply get_field_decomp; pw; lia.
+Qed.
+
 (* ================= the data slots ================= *)
 
 Theorem parse_slots_spec : forall c mz tp sl nm,
